@@ -347,6 +347,7 @@ func Run[S any](t *testing.T, sp Spec[S]) {
 			continue
 		}
 		c.Class("_replayed", 1)
+		setCurrent(c, s)
 		if v := sp.Exec(s); v != nil {
 			if c.Known(v.Sig) {
 				continue
@@ -373,6 +374,7 @@ func Run[S any](t *testing.T, sp Spec[S]) {
 			// a case that kills the process leaves its script behind as the reproducer
 			c.writeCurrent(s)
 		}
+		setCurrent(c, s)
 		if v := sp.Exec(s); v != nil {
 			if c.Known(v.Sig) {
 				return
